@@ -260,8 +260,32 @@ def run(ctx):
             rng.shuffle(qg)
             return tj, G, table, qg, minm
 
+        def dup_case(i):
+            """a choice parent whose list repeats a gene: entries present in the query reach the minimum, distinct
+            genes do not, so the ancestors' lists are needed"""
+            for _ in range(200):
+                tj = maptrace.random_tree(rng, 3, 6, 3)
+                if len(tj['hier']) < 2:
+                    continue
+                cands = [p for p in maptrace.all_parents(tj)[1:]
+                         if len(dict((a, b) for a, b in tj['kids'][tj['hier'].index(p[0])])[p[1]]) >= 2]
+                if cands:
+                    break
+            else:
+                return None
+            p = rng.choice(cands)
+            G = 8
+            genes = list(range(1, G + 1))
+            rng.shuffle(genes)
+            minm = rng.randint(2, 3)
+            own = [genes[0]] * minm if minm == 2 else [genes[0], genes[0], genes[1]]
+            table = [[[0, 0], genes[3:6]], [p, own]]
+            qg = list(genes)
+            rng.shuffle(qg)
+            return tj, G, table, qg, minm
+
         for i in range(n):
-            chain = chain_case(i) if i % 4 == 0 else None
+            chain = chain_case(i) if i % 4 == 0 else dup_case(i) if i % 4 == 2 else None
             if chain is not None:
                 tj, G, table, qg, minm = chain
                 scheme = ['reversed', 'structural', 'shared', 'reversed'][(i // 4) % 4]
